@@ -47,6 +47,10 @@ TRUSTED = ["CPython ast parser", "a dict comprehension {v: k for k, v in d.items
 RUN_TYPES = ["energy", "energy_force", "opt", "scan", "freq"]
 EXPLANATION += ' (R13) count fields are rounded, not truncated (fchk, wfx, fcidump, molekel); (R14) formats whose reader splits lines at white space are written with a literal separator between neighbouring fields, so that a counter filling its field cannot merge with its neighbour.'
 TECHNIQUE += '; count-field rule; token-separation rule on writer templates'
+# --- metadata added for batch 7
+TECHNIQUE += '; writer-fragment / reader-fragment evaluation on model streams (packed arrays, chunked sections, integral records, user-defined columns); abstract interpretation of reader results for dictionary keys'
+EXPLANATION += " Added: (R15) Molekel centres; (R16) chunked sections (Molekel blocks of five, FCHK five per line, PDB CONECT groups of four, WFX) write every value once, in order; (R17-R19) the orbital sections of Molekel / Molden / WFN (the evaluated clauses of C01-R14..R16); (R20) dictionary keys a writer looks up are keys its reader stores; (R21) FCHK gradient / Hessian / polarizability packing against the reader's unpacking; (R22) FCIDUMP: the symmetry-unique records written rebuild both integral arrays when read; (R23) FCHK quadrupole: the writer statement lists XX YY ZZ XY XZ YZ, the reader statement stores xx xy xz yy yz zz (both evaluated on six different numbers, no frozen permutation literal); (R24) the column-driven XYZ writer and reader interpreted with user-defined columns (scalar, vector, two columns under one dictionary attribute)."
+# --- end metadata batch 7
 
 
 def _lev(a, b):
